@@ -152,6 +152,12 @@ func strGsub(L *LState) int {
 	L.CheckTypes(3, LTString, LTTable, LTFunction)
 	repl := L.CheckAny(3)
 	limit := L.OptInt(4, -1)
+	if L.Get(4) != LNil && limit <= 0 {
+		// an explicit maximum of zero or less: no substitution at all (-1 means "no limit" only as the default)
+		L.SetTop(1)
+		L.Push(LNumber(0))
+		return 2
+	}
 
 	mds, err := pm.Find(pat, unsafeFastStringToReadOnlyBytes(str), 0, limit)
 	if err != nil {
